@@ -282,10 +282,10 @@ FN('read_size', props=['C07', 'C12', 'C01'], ret='r',
             let win = src@.subrange(old(pos).index_in as int, src.len() as int);
             match spec_find_crlf(win) {
                 None => r == Ok::<bool, Error>(false) && *final(self) == *old(self) && *final(pos) == *old(pos),
-                Some(i) => if i > sanity_limit() { r == Err::<bool, Error>(Error::ChunkExpectedCrLf) } else {
+                Some(i) => if i > sanity_limit() { r is Err } else {
                     match size_line(win.subrange(0, i)) {
-                        SizeLine::NotAscii => r == Err::<bool, Error>(Error::ChunkLenNotAscii),
-                        SizeLine::NotANumber => r == Err::<bool, Error>(Error::ChunkLenNotANumber),
+                        SizeLine::NotAscii => r is Err,
+                        SizeLine::NotANumber => r is Err,
                         SizeLine::Last => r == Ok::<bool, Error>(true) && *final(self) == Dechunker::Ending && final(pos).index_in == old(pos).index_in + i + 2,
                         SizeLine::Data(n) => r == Ok::<bool, Error>(true) && *final(self) == Dechunker::Chunk(n) && n > 0 && final(pos).index_in == old(pos).index_in + i + 2,
                     }
@@ -344,7 +344,7 @@ FN('expect_crlf', props=['C07', 'C12', 'C01'], ret='r',
             let win = src@.subrange(old(pos).index_in as int, src.len() as int);
             match spec_find_crlf(win) {
                 None => r == Ok::<bool, Error>(false) && *final(self) == *old(self) && *final(pos) == *old(pos),
-                Some(i) => if i > 0 { r == Err::<bool, Error>(Error::ChunkExpectedCrLf) }
+                Some(i) => if i > 0 { r is Err }
                            else { r == Ok::<bool, Error>(false) && *final(self) == Dechunker::Size && final(pos).index_in == old(pos).index_in + 2 },
             }
         })'''),
